@@ -25,6 +25,7 @@ func init() {
 			"C16.R1 taint of the live-config path value into destructive argument positions (os.Rename old path, os.Remove*, os.Create, os.WriteFile, os.Truncate, os.OpenFile with write flags, viper.WriteConfig*)",
 			"C16.R2 publish-rename source == argument of a dominating, error-checked viper.WriteConfigAs; destination == live-config path",
 			"C16.R3 control dependence of the cache updates in the updater loop; SENDALL arm ranges over the cache",
+			"C16.R3 (addition) nothing is deleted from the replay caches, in the updater or in functions handed a cache; C16.R4 (addition) destinations of viper.UnmarshalKey have no slice/map field set before decoding",
 			"C16.R4 key sets: viper.UnmarshalKey constants vs ClientUpdate tag constants vs no-save table; saveState loop guard",
 			"C16.R5 address of a range variable hoisted out of the loop is stored into a container inside the loop",
 		},
@@ -42,6 +43,7 @@ func runC16(p *Prog, r *Report) {
 	c16R3(p, r)
 	c16R4(p, r)
 	loopVarAliasRule(p, r, "C16.R5")
+	c16More(p, r)
 }
 
 const viperPkg = "github.com/spf13/viper"
@@ -477,4 +479,106 @@ func loopVarAliasRule(p *Prog, r *Report, rule string) {
 		}
 	}
 	r.OK(rule, "range loops examined", "-", fmt.Sprintf("%d range loops: no address of a shared range variable is stored", n))
+}
+
+// ---- additions after the second round of seeded changes ---------------------------------------
+
+// c16More: (R3) nothing is ever deleted from the replay caches of the client updater, neither in
+// the updater nor in a function that is handed a cache; (R4) the destination handed to
+// viper.UnmarshalKey has no slice- or map-typed field set beforehand: the decoder merges into
+// existing slices (the restored list keeps the default's tail), so the restored configuration
+// would not be the saved one.
+func c16More(p *Prog, r *Report) {
+	upd := p.Func("", "", "RunClientUpdater")
+	if upd == nil {
+		return
+	}
+	// caches and the parameters they flow into
+	caches := map[ssa.Value]bool{}
+	Instrs(upd, func(in ssa.Instruction) {
+		if mu, ok := in.(*ssa.MapUpdate); ok {
+			if _, isMk := mu.Map.(*ssa.MakeMap); isMk {
+				caches[mu.Map] = true
+			}
+		}
+	})
+	type site struct {
+		fn *ssa.Function
+		v  ssa.Value
+	}
+	work := []site{}
+	for c := range caches {
+		work = append(work, site{upd, c})
+	}
+	seen := map[ssa.Value]bool{}
+	var dels []ssa.Instruction
+	nfn := 0
+	for len(work) > 0 {
+		s := work[0]
+		work = work[1:]
+		if seen[s.v] {
+			continue
+		}
+		seen[s.v] = true
+		nfn++
+		Instrs(s.fn, func(in ssa.Instruction) {
+			cc := CallOf(in)
+			if cc == nil {
+				return
+			}
+			if b, ok := cc.Value.(*ssa.Builtin); ok && b.Name() == "delete" && len(cc.Args) > 0 && cc.Args[0] == s.v {
+				dels = append(dels, in)
+			}
+			if callee := cc.StaticCallee(); callee != nil && callee.Blocks != nil {
+				for i, a := range cc.Args {
+					if a == s.v && i < len(callee.Params) {
+						work = append(work, site{callee, callee.Params[i]})
+					}
+				}
+			}
+		})
+	}
+	pos := p.Pos(upd.Pos())
+	if len(dels) > 0 {
+		pos = p.InstrPos(dels[0])
+	}
+	r.Check(len(dels) == 0, "C16.R3", "nothing is deleted from the replay caches", pos, fmt.Sprintf("no delete on the caches in the updater or in the %d function(s) they are passed to", nfn-len(caches)),
+		"an entry is deleted from the cache that answers a client's request for all status: after it, that topic is no longer replayed (and re-publishing the same value counts as unchanged, so it does not come back)")
+	// R4: destinations of UnmarshalKey
+	n := 0
+	for _, fn := range p.LibFuncs() {
+		Instrs(fn, func(in ssa.Instruction) {
+			cc := CallOf(in)
+			if cc == nil || cc.StaticCallee() == nil || cc.StaticCallee().Pkg == nil || cc.StaticCallee().Pkg.Pkg.Path() != viperPkg || cc.StaticCallee().Name() != "UnmarshalKey" {
+				return
+			}
+			dst := cc.Args[1]
+			if mi, ok := dst.(*ssa.MakeInterface); ok {
+				dst = mi.X
+			}
+			al, ok := dst.(*ssa.Alloc)
+			if !ok {
+				return // a field of a long-lived object: not a fresh default-filled struct
+			}
+			n++
+			key, _ := constString(cc.Args[0])
+			bad := ""
+			Instrs(fn, func(x ssa.Instruction) {
+				st, ok := x.(*ssa.Store)
+				if !ok || addrRoot(st.Addr) != ssa.Value(al) || !InstrReaches(st, in) {
+					return
+				}
+				switch st.Val.Type().Underlying().(type) {
+				case *types.Slice, *types.Map:
+					if c, isC := st.Val.(*ssa.Const); isC && c.Value == nil {
+						return
+					}
+					bad = p.InstrPos(st)
+				}
+			})
+			r.Fn(FuncName(fn))
+			r.Check(bad == "", "C16.R4", fmt.Sprintf("restore of %q decodes into a destination without pre-set lists", key), p.InstrPos(in), "only scalar defaults are set before decoding",
+				"a slice or map field of the destination is given a default value at "+bad+" before viper.UnmarshalKey: the decoder merges element-wise into the existing list, so a saved list shorter than the default comes back with the default's tail appended, is announced, and overwrites the saved configuration")
+		})
+	}
 }
